@@ -452,6 +452,6 @@ def check(ctx: Ctx) -> None:
     name_idempotence(ctx, "C15.name")
     init_delegates(ctx)
     update_obligations(ctx)
-    setitem_obligations(ctx, "C15")
+    setitem_obligations(ctx, "C15", exact=True)
     setitem_key(ctx, "C15.setitem")
     partition_obligations(ctx)
